@@ -171,6 +171,11 @@ impl Prop for C09 {
                 f(Case::s(d));
             }
         }));
+        v.push(Scope::new("inv-repeated-shapes", "global invariant on circles, arcs and boxes with an attached line, drawn once and two or three times at different positions of one page", |f| {
+            for d in shapes::repeated_tailed_family() {
+                f(Case::s(d));
+            }
+        }));
         v.push(Scope::new("inv-nbhd2", "global invariant on every 2-character neighbourhood of the ASCII + unicode drawing alphabets", |f| {
             let mut a = shapes::sigma_ascii();
             a.extend(shapes::sigma_uni());
